@@ -80,12 +80,18 @@ def _eval_many(terms, name, timeout=600):
     def one(arg):
         k, idxs = arg
         body = IMPORTS + "".join("Eval vm_compute in (%s).\n" % terms[i] for i in idxs)
-        try:
-            rc, out = lib.coqc_snippet(body, "%s_%d" % (name, k), timeout=timeout)
-        except Exception as e:  # subprocess.TimeoutExpired
-            raise lib.Fail("evaluating case file %s_%d: %r" % (name, k, e))
+        for attempt in range(3):
+            try:
+                rc, out = lib.coqc_snippet(body, "%s_%d" % (name, k), timeout=timeout)
+            except Exception as e:  # subprocess.TimeoutExpired
+                raise lib.Fail("evaluating case file %s_%d: %r" % (name, k, e))
+            if rc == 0:
+                break
+            # a .vo of the shared development may be half-written by a concurrent build: try again
+            time.sleep(5 + 10 * attempt)
         if rc != 0:
-            raise lib.Fail("case file %s_%d did not compile:\n%s" % (name, k, out[-3000:]))
+            errs = [l for l in out.splitlines() if "Error" in l or "rror:" in l]
+            raise lib.Fail("case file %s_%d did not compile:\n%s\n%s" % (name, k, "\n".join(errs[:5]), out[-1500:]))
         ls = _lists(out)
         if len(ls) != len(idxs):
             raise lib.Fail("could not parse the answers of %s_%d (%d of %d):\n%s" % (name, k, len(ls), len(idxs), out[-1500:]))
